@@ -77,6 +77,8 @@ func runC02(p *Prog, r *Report) {
 	mustAssignRule(p, r, "C02.R7")
 	matchesGates(p, r, "C02.R8", "builder.(*List).Matches", "builder.(*Basic).Matches")
 	fieldPathRule(p, r, "C02.R9")
+	precedenceRule(p, r, "C02.R10", "SkipCopy")
+	derefOwnershipRule(p, r, "C02.R11", chains)
 }
 
 // vocabularyRule (C02.R1, shared as C01.R8): the closed vocabulary of emitted operators and constructs.
